@@ -53,6 +53,9 @@ type Hooks struct {
 	Store func(st *State, obj types.Object, v Val)
 	// Inline resolves a statically-called module function/method to its declaration for inlining.
 	Inline func(fn *types.Func) (*ast.FuncDecl, *types.Info)
+	// Visit: callee hands its items to a callback argument one by one; returns the index of that argument and the
+	// abstract item(s) of one iteration. The callback is run once inline.
+	Visit func(st *State, callee string, recv Val, args []Val) (arg int, items []Val, ok bool)
 	// FreeClosure resolves a variable that is free in the interpreted body (declared in the enclosing function)
 	// to the function literal it is bound to, when that binding is unique.
 	FreeClosure func(v *types.Var) *ast.FuncLit
